@@ -590,6 +590,42 @@ def endpoint_families(rec, rng):
                         rec.violation(key, f"one URL registered for HTTP and WebSocket ({order}), {scheme} request for {path!r}: {got!r} via {trail!r}, expected {want!r} after at most one redirect",
                                       {"family": "twins", "order": order, "scheme": scheme, "path": path}, monitor="follow")
                         return
+    # (a2) the caller edits what match() handed out (an URL-value preprocessor adding / popping a value); later requests are
+    # redirected as if nobody had
+    for edit in ("add", "pop", "clear", "overwrite"):
+        m2 = Map([Rule("/", endpoint="index", defaults={"page": 1}), Rule("/page/<int:page>", endpoint="index"), Rule("/about", endpoint="about", defaults={"lang": "en"}),
+                  Rule("/about/<lang>", endpoint="about")])
+        ad2 = m2.bind("example.com", "/", query_args="x=1")
+        before = {}
+        for p_ in ("/page/1", "/about/en", "/page/2", "/"):
+            try:
+                before[p_] = ("match",) + ad2.match(p_)
+            except RequestRedirect as e:
+                before[p_] = ("redirect", e.new_url)
+        for p_ in ("/", "/about"):
+            ep_, args_ = ad2.match(p_)
+            if edit == "add":
+                args_["theme"] = "light"
+            elif edit == "pop":
+                args_.popitem()
+            elif edit == "clear":
+                args_.clear()
+            else:
+                for k_ in list(args_):
+                    args_[k_] = "edited"
+        after = {}
+        for p_ in ("/page/1", "/about/en", "/page/2", "/"):
+            try:
+                after[p_] = ("match",) + ad2.match(p_)
+            except RequestRedirect as e:
+                after[p_] = ("redirect", e.new_url)
+        rec.case()
+        rec.nontrivial(("caller-edits", edit))
+        rec.observe("redirects_after_a_caller_edited_a_match_result")
+        if after != before or before["/page/1"] != ("redirect", "http://example.com/?x=1"):
+            rec.violation("C12/redirect-depends-on-what-an-earlier-caller-did-with-its-result", f"a caller did {edit!r} to the arguments match() returned; before: {before!r}; afterwards: {after!r}",
+                          {"family": "caller-edits", "edit": edit}, monitor="follow")
+            return
     # (b) argument sets that contain one another
     m = Map([Rule("/archive/", endpoint="archive", defaults={"page": 1}), Rule("/archive/<int:page>", endpoint="archive"), Rule("/archive/all/", endpoint="archive"),
              Rule("/tag/<name>/", endpoint="tag", defaults={"page": 1}), Rule("/tag/<name>/<int:page>", endpoint="tag"), Rule("/tag/<name>/feed", endpoint="tag"),
